@@ -74,6 +74,16 @@ package extensions
 //@ modifies z
 //@ end
 
+// E2.Div: z·y = x·(N(y)·inv(N(y))), i.e. z = x/y whenever the norm of y is invertible (z = 0 when y = 0).
+// Proved from the contracts of Inverse, Mul and Set (their bodies are not re-executed).
+//@ func E2.Div
+//@ layer ring goldilocks.Element
+//@ option distribute
+//@ ensures[quotient] qmul(7, vec(z), old(vec(y))) == vscale(qnorm(7, old(vec(y))) * inv(qnorm(7, old(vec(y)))), old(vec(x)))
+//@ ensures[result] result == z
+//@ modifies z
+//@ end
+
 //@ func E2.Inverse
 //@ layer ring goldilocks.Element
 //@ option distribute
